@@ -47,4 +47,18 @@ var targets = []target{
 		Syms: map[string]string{"MatchExact": "GoLib.MatchType.exact", "MatchRegex": "GoLib.MatchType.regex"},
 		Rename: map[string]string{"match": "mt"},
 	},
+	{
+		Prop: "C01", File: "pkg/converters/ingress/ingress.go", Recv: "converter", Func: "trackStrictHosts", Lean: "trackStrictHosts",
+		Sig:  "(strictHost : Bool) (hostsAdd : List GoLib.HostView) (fx : List GoLib.TrackCall) : List GoLib.TrackCall",
+		Fall: "fx",
+		Syms: map[string]string{
+			"c.haproxy.Global().StrictHost":           "strictHost",
+			"c.haproxy.Hosts().ItemsAdd()":            "hostsAdd",
+			"hatypes.DefaultHost":                     "Facts.c04DefaultHost",
+			"host.FindPath(\"/\", hatypes.MatchBegin)": "(host).rootBegin",
+			"convtypes.ResourceHAHostname":            "\"H\"",
+		},
+		Effects: map[string]string{"c.tracker.TrackNames": "GoLib.trackNames"},
+		Doc:     "ItemsAdd() is a Go map: `hostsAdd` is its content in iteration order;",
+	},
 }
